@@ -116,12 +116,13 @@ def theorem_names(props_file: Path) -> list[str]:
     return names
 
 
-def audit(prop: str, extra_allowed=lambda thm, ax: False):
-    """#print axioms for every theorem of Props/<prop>.lean; grep for forbidden constructs.
-
-    Returns dict(ok, theorems={name:[axioms]}, problems=[...])."""
-    props = LEAN / "Pybes3Verif" / "Props" / f"{prop}.lean"
-    names = theorem_names(props)
+def audit(prop: str, extra_allowed=lambda thm, ax: False, modules=None):
+    """#print axioms for every theorem of Props/<module>.lean (default: Props/<prop>.lean); grep for
+    forbidden constructs.  Returns dict(ok, theorems={name:[axioms]}, problems=[...])."""
+    modules = modules or [prop]
+    names = []
+    for m in modules:
+        names += theorem_names(LEAN / "Pybes3Verif" / "Props" / f"{m}.lean")
     problems = []
     # forbidden-construct grep over the whole project (comments stripped)
     for f in list((LEAN / "Pybes3Verif").rglob("*.lean")) + list((LEAN / "Driver").glob("*.lean")):
@@ -129,9 +130,9 @@ def audit(prop: str, extra_allowed=lambda thm, ax: False):
         if m:
             problems.append(f"forbidden construct {m.group(0)!r} in {f.relative_to(LEAN)}")
     if not names:
-        problems.append(f"no theorems found in Props/{prop}.lean")
+        problems.append(f"no theorems found in Props/{modules}.lean")
     audit_file = LEAN / "Audit" / f"{prop}.lean"
-    body = f"import Pybes3Verif.Props.{prop}\n" + "".join(f"#print axioms {n}\n" for n in names)
+    body = "".join(f"import Pybes3Verif.Props.{m}\n" for m in modules) + "".join(f"#print axioms {n}\n" for n in names)
     write_if_changed(audit_file, body)
     with LakeLock():
         rc, out, err = run_cmd(["lake", "env", "lean", str(audit_file.relative_to(LEAN))], cwd=LEAN, timeout=1800)
@@ -209,17 +210,19 @@ class Check:
         self.failing.append({"what": what, "input": input, "observed": observed, "expected": expected,
                              "oracle": oracle, "finding_key": finding_key})
 
-    def prove(self, extra_targets=(), extra_allowed=lambda thm, ax: False):
-        """lake build Props.<prop> and audit its axioms. Records broken obligations."""
-        tgt = [f"Pybes3Verif.Props.{self.prop}", *extra_targets]
+    def prove(self, extra_targets=(), extra_allowed=lambda thm, ax: False, modules=None):
+        """lake build Props.<module>... and audit the axioms of all their theorems. Records broken obligations."""
+        modules = modules or [self.prop]
+        tgt = [f"Pybes3Verif.Props.{m}" for m in modules] + list(extra_targets)
         ok, log = lake_build(tgt)
         self.coverage["checker_cmd"] = f"cd lean && lake build {' '.join(tgt)} && lake env lean Audit/{self.prop}.lean"
         if not ok:
             errs = "\n".join(l for l in log.splitlines() if "error" in l.lower())[:3000]
             self.obligation_broken("theorem", f"lake build {' '.join(tgt)}", errs + "\n----\n" + log[-3000:])
-            self.coverage.update(obligations=max(1, len(theorem_names(LEAN / 'Pybes3Verif' / 'Props' / f'{self.prop}.lean'))), discharged=0)
+            nthm = sum(len(theorem_names(LEAN / 'Pybes3Verif' / 'Props' / f'{m}.lean')) for m in modules)
+            self.coverage.update(obligations=max(1, nthm), discharged=0)
             return False
-        a = audit(self.prop, extra_allowed)
+        a = audit(self.prop, extra_allowed, modules)
         axs_all = sorted({ax for v in a["theorems"].values() for ax in v})
         native = [x for x in axs_all if "._native." in x]
         axs = [x for x in axs_all if "._native." not in x]
